@@ -4,7 +4,7 @@
 (*   ParallelSimulation.__init__   -> Init (partitioning conf, link latencies *)
 (*                                    lat, window size w; validate_partitions *)
 (*                                    rule 7 restricts w to 1..min(lat))       *)
-(*   WindowedCoordinator.run       -> BeginWindow / Exchange / Advance         *)
+(*   WindowedCoordinator.run       -> StartPar / Exchange / Advance(s)          *)
 (*   Simulation._run_window ->                                                *)
 (*     Simulation._execute_until   -> ExecStep(p, i) (one pop of the loop:     *)
 (*                                    time-travel discard or deliver + route), *)
@@ -42,7 +42,8 @@ EXTENDS Naturals, Integers, Sequences, FiniteSets, TLC
 CONSTANTS Confs,     \* set of configurations [ep : Seq(partition), np : Nat, links : SUBSET (P \X P), endT]
           MaxLat,    \* link minimum latencies range over 1..MaxLat
           MaxEv, MaxT, MaxOut,
-          ShortWin,  \* TRUE: window ends may fall short of the nominal tick (float truncation)
+          ShortWin,  \* window ends falling short of the nominal tick (float truncation):
+                     \* "never" | "fixed" (all windows or none) | "any" (from any window on)
           Interleave,\* TRUE: partitions' loop iterations interleave freely (thread pool)
           Dev
 
@@ -138,7 +139,10 @@ SeqDeliver(outs) ==
 \* ---- coordinator ---------------------------------------------------------------
 \* window_end = from_seconds(current.to_seconds() + w), clamped to end_time
 WinEnd(n, s) == IF EndT # Inf /\ n + w > EndT THEN <<EndT, 0>> ELSE <<n + w, s>>
-ShortChoices(s) == IF ShortWin THEN {s, 1} ELSE {s}
+ShortChoices(s, first) ==
+    IF ShortWin = "any" THEN {s, 1}
+    ELSE IF ShortWin = "fixed" /\ first THEN {0, 1}
+    ELSE {s}
 \* current_time < end_time
 BeforeEnd(n, s) == EndT = Inf \/ n < EndT \/ (n = EndT /\ s = 1)
 
@@ -151,7 +155,7 @@ StartPar ==
     /\ IF conf.links = {}
        THEN /\ sub' = "indep"
             /\ UNCHANGED <<endN, endS, shist>>
-       ELSE \E s \in ShortChoices(0) :
+       ELSE \E s \in ShortChoices(0, TRUE) :
             /\ endN' = WinEnd(0, s)[1] /\ endS' = WinEnd(0, s)[2]
             /\ shist' = <<WinEnd(0, s)[2]>>
             /\ sub' = "exec"
@@ -217,14 +221,16 @@ Exchange ==
 \* ---- current_time = window_end; heaps-exhausted test; loop head --------------------
 AllEmpty == \A p \in Parts : heap[p] = {}
 
-Advance ==
-    /\ phase = "par" /\ sub = "advance"
+Terminating == AllEmpty \/ ~BeforeEnd(endN, endS)
+AdvanceGuard == phase = "par" /\ sub = "advance"
+
+Advance(s) ==
+    /\ AdvanceGuard
     /\ curN' = endN /\ curS' = endS
-    /\ IF AllEmpty \/ ~BeforeEnd(endN, endS)
+    /\ IF Terminating
        THEN /\ phase' = "done" /\ sub' = "-"
             /\ UNCHANGED <<endN, endS, pdone, shist>>
-       ELSE \E s \in ShortChoices(endS) :
-            /\ endN' = WinEnd(endN, s)[1] /\ endS' = WinEnd(endN, s)[2]
+       ELSE /\ endN' = WinEnd(endN, s)[1] /\ endS' = WinEnd(endN, s)[2]
             /\ shist' = Append(shist, WinEnd(endN, s)[2])
             /\ pdone' = [p \in Parts |-> FALSE]
             /\ UNCHANGED phase /\ sub' = "exec"
@@ -261,7 +267,7 @@ Next ==
     \/ \E p \in Parts : \E i \in heap[p] : ExecStep(p, i)
     \/ \E p \in Parts : ExecDone(p)
     \/ Exchange
-    \/ Advance
+    \/ \E s \in ShortChoices(endS, FALSE) : Advance(s)
     \/ \E p \in Parts : \E i \in heap[p] : IndepStep(p, i)
     \/ IndepFinish
     \/ (phase = "done" /\ UNCHANGED vars)
